@@ -11,8 +11,8 @@ pub fn prop() -> HistProp {
         focus: &["C17"],
         opts: HistOpts { max_ops: 40, deliver_weight: 8, hostile: 4, ..HistOpts::default() },
         drain: true,
-        quick: 20_000,
-        thorough: 400_000,
+        quick: 150_000,
+        thorough: 2_000_000,
         rule: "operation histories generated as one value (sends with application attributes, indications, clock advances, timer calls exact/early/late, replies to outstanding/finished/unknown ids with every authentication and fingerprint variant, 401/438 challenges, garbage and mutated buffers) run against a real client and the reference tracker in lock-step under a virtual clock; whenever on_buffer_recv returns an error (undecodable or truncated bytes, a request, a response for an unknown or finished id, bad or missing fingerprint, failed authentication that is to be ignored, both-attribute responses, refused indications, long-term responses before any challenge) events() must be empty and the snapshot (outstanding ids and retransmission state, timers, RTT estimate, credential state, learned algorithm) identical to the one before, except the documented violated marker of that very transaction; the continuation (including the final drain) is checked against the tracker that ignored the buffer; non-trivial = a rejection while at least one request is outstanding, followed by at least 2 further operations; distinct = hash of the history",
         assumptions: &["continuation invariants of C05/C06/C11/C12 stay evaluated; a deviation there ends the case without an alarm unless it is a C17 finding"],
         nontrivial: |h, s| s.rejected_while_outstanding > 0 && h.ops.len() >= 4,
